@@ -8,6 +8,7 @@ import CB.Lemmas.C05Wide
 import CB.Lemmas.C05Query
 import CB.Lemmas.C05Int
 import CB.Lemmas.C05Boxed
+import CB.Lemmas.C05Small
 namespace CB.P05
 open CB CB.Shift CB.Bits
 
@@ -139,35 +140,58 @@ example : overflowingShl [1, 2, WMAX] 191 = some (overflowingShlVartime [1, 2, W
 
 /-! ## T05.3 double-width shifts -/
 
-/-- T05.3a `overflowing_shl_vartime_wide((lo, hi), s)` for `0 < s < 2·BITS` (both branches, including
-    `BITS ≤ s < 2·BITS`): the pair is `((lo + 2^BITS·hi) · 2^s) mod 2^(2·BITS)`; none for `s ≥ 2·BITS`. -/
+/-- T05.3a `overflowing_shl_vartime_wide((lo, hi), s)` for EVERY `s`: for `s < 2·BITS` (all three branches:
+    `BITS ≤ s`, `0 < s < BITS`, and `s = 0` where the complementary `wrapping_shr_vartime(BITS)` is zero) the
+    pair is `((lo + 2^BITS·hi) · 2^s) mod 2^(2·BITS)`; none for `s ≥ 2·BITS`. -/
 theorem shl_wide_spec {lo hi : List Nat} (hlo : WF lo) (hhi : WF hi) (hl : hi.length = lo.length) (s : Nat) :
     (2 * (64 * lo.length) ≤ s → shlVartimeWide lo hi s = some ((uzero lo.length, uzero lo.length), 0)) ∧
-    (0 < s → s < 2 * (64 * lo.length) →
+    (s < 2 * (64 * lo.length) →
       ∃ rl rh, shlVartimeWide lo hi s = some ((rl, rh), WMAX) ∧
         val rl + B ^ lo.length * val rh =
           ((val lo + B ^ lo.length * val hi) * 2 ^ s) % (B ^ lo.length * B ^ lo.length) ∧
         WF rl ∧ WF rh ∧ rl.length = lo.length ∧ rh.length = lo.length) :=
-  ⟨shlVartimeWide_overflow lo hi, fun h0 h => shlVartimeWide_spec hlo hhi hl h0 h⟩
+  ⟨shlVartimeWide_overflow lo hi, fun h => shlVartimeWide_spec hlo hhi hl h⟩
 
 theorem shr_wide_spec {lo hi : List Nat} (hlo : WF lo) (hhi : WF hi) (hl : hi.length = lo.length) (s : Nat) :
     (2 * (64 * lo.length) ≤ s → shrVartimeWide lo hi s = some ((uzero lo.length, uzero lo.length), 0)) ∧
-    (0 < s → s < 2 * (64 * lo.length) →
+    (s < 2 * (64 * lo.length) →
       ∃ rl rh, shrVartimeWide lo hi s = some ((rl, rh), WMAX) ∧
         val rl + B ^ lo.length * val rh = (val lo + B ^ lo.length * val hi) / 2 ^ s ∧
         WF rl ∧ WF rh ∧ rl.length = lo.length ∧ rh.length = lo.length) :=
-  ⟨shrVartimeWide_overflow lo hi, fun h0 h => shrVartimeWide_spec hlo hhi hl h0 h⟩
+  ⟨shrVartimeWide_overflow lo hi, fun h => shrVartimeWide_spec hlo hhi hl h⟩
 
-/-
-  FULL STATEMENT (unproved — it is FALSE of the code as written, finding C05-wide-shift-zero):
-    the two existential clauses above also hold for `s = 0` (result = the input pair).
-  Proved instead: the negation, the code panics for `s = 0` on every non-empty width.
--/
-/-- T05.3n (negative) the wide shifts PANIC for `shift = 0`: the complementary shift by `BITS - 0`
-    is unwrapped with `expect`. Confirmed on the real crate (corpus/C05.txt). -/
-theorem wide_shift_zero_panics (lo hi : List Nat) (hn : lo ≠ []) (hl : hi.length = lo.length) :
-    shlVartimeWide lo hi 0 = none ∧ shrVartimeWide lo hi 0 = none :=
-  ⟨shlVartimeWide_zero lo hi hn, shrVartimeWide_zero lo hi hn hl⟩
+/-- T05.3b the shift by 0 (which panicked before fix 7c6f86b, finding C05-wide-shift-zero) returns the
+    input pair. -/
+theorem wide_shift_zero {lo hi : List Nat} (hlo : WF lo) (hhi : WF hi) (hl : hi.length = lo.length)
+    (hn : lo ≠ []) :
+    shlVartimeWide lo hi 0 = some ((lo, hi), WMAX) ∧ shrVartimeWide lo hi 0 = some ((lo, hi), WMAX) := by
+  have hlen : 0 < lo.length := List.length_pos_iff.mpr hn
+  have hs : 0 < 2 * (64 * lo.length) := by omega
+  have hlolt := val_lt hlo
+  have hhilt := val_lt hhi
+  rw [hl] at hhilt
+  have hpair : ∀ rl rh : List Nat, WF rl → WF rh → rl.length = lo.length → rh.length = lo.length →
+      val rl + B ^ lo.length * val rh = val lo + B ^ lo.length * val hi → rl = lo ∧ rh = hi := by
+    intro rl rh wl wh ll lh e
+    have hrl := val_lt wl
+    rw [ll] at hrl
+    have h1 : val rl = val lo := by
+      have := congrArg (· % B ^ lo.length) e
+      simp only [Nat.add_mul_mod_self_left, Nat.mod_eq_of_lt hrl, Nat.mod_eq_of_lt hlolt] at this
+      exact this
+    have h2 : val rh = val hi := by
+      rw [h1] at e
+      exact Nat.eq_of_mul_eq_mul_left (Bpow_pos lo.length) (Nat.add_left_cancel e)
+    exact ⟨val_inj wl hlo ll h1, val_inj wh hhi (by rw [lh, hl]) h2⟩
+  constructor
+  · obtain ⟨rl, rh, e, hv, wl, wh, ll, lh⟩ := shlVartimeWide_spec hlo hhi hl hs
+    rw [Nat.pow_zero, Nat.mul_one, Nat.mod_eq_of_lt (lt_sq hlolt hhilt)] at hv
+    have := hpair rl rh wl wh ll lh hv
+    rw [e, this.1, this.2]
+  · obtain ⟨rl, rh, e, hv, wl, wh, ll, lh⟩ := shrVartimeWide_spec hlo hhi hl hs
+    rw [Nat.pow_zero, Nat.div_one] at hv
+    have := hpair rl rh wl wh ll lh hv
+    rw [e, this.1, this.2]
 
 /-! ## T05.6 bitwise operators -/
 
@@ -194,13 +218,11 @@ theorem boxed_bitops_spec {a b : List Nat} (ha : WF a) (hb : WF b) :
   have h3 := val_mapLimbs (f := (· ^^^ ·)) Nat.testBit_xor (fun _ _ hx hy => xor_lt_B hx hy) (by decide) ha hb
   exact ⟨⟨h1.1, h1.2.2⟩, ⟨h2.1, h2.2.2⟩, ⟨h3.1, h3.2.2⟩⟩
 
-/-
-  FULL STATEMENT (unproved — FALSE of the code as written, finding C05-boxed-or-assign-truncates):
-    `val (orAssign a b) = val a ||| val b` for all `a b`.
-  Proved: it holds when `b` is not longer than `a`; and a concrete counterexample otherwise.
--/
-/-- T05.6n (negative) `BoxedUint |= wider` drops the high limbs of the right-hand side. -/
-theorem or_assign_truncates : val (orAssign [15] [1, 1]) ≠ val [15] ||| val [1, 1] := by decide
+/-- T05.6b `BoxedUint |= rhs` (a zip over the receiver's limbs before fix e52b2f3, finding
+    C05-boxed-or-assign-truncates): exact at the larger precision for operands of any precisions. -/
+theorem or_assign_spec {a b : List Nat} (ha : WF a) (hb : WF b) :
+    val (orAssign a b) = val a ||| val b ∧ (orAssign a b).length = max a.length b.length :=
+  (boxed_bitops_spec ha hb).2.1
 
 /-! ## T05.5 bit length, leading / trailing counts, bit test, bit set; ct = vartime
 
@@ -251,20 +273,16 @@ theorem set_bit_spec {a : List Nat} (ha : WF a) (hn : a.length ≤ TWO32) {i : N
     (val (setBit a i (mask v))).testBit j = if j = i ∧ i < 64 * a.length then v else (val a).testBit j :=
   setBit_testBit ha hn hi v j
 
-/-
-  FULL STATEMENT (unproved — FALSE of the code as written, finding C05-set-bit-vartime-oob):
-    `setBitVartime a i v = some (setBit a i (mask v))` for every index `i`.
-  Proved: it holds for `i < BITS`; for `i ≥ BITS` the vartime form panics (`none`) while the
-  constant-time form returns the value unchanged.
--/
-theorem set_bit_vartime_partial {a : List Nat} (ha : WF a) (hn : a.length ≤ TWO32) {i : Nat} (hi : i < TWO32)
-    (v : Bool) (H_in_range : i < 64 * a.length) :
-    setBitVartime a i v = some (setBit a i (mask v)) := (setBit_vs_vartime ha hn hi v).1 H_in_range
-
-/-- T05.5n (negative) for `i ≥ BITS`: `set_bit` is a no-op, `set_bit_vartime` PANICS. -/
-theorem set_bit_vartime_oob_panics {a : List Nat} (ha : WF a) (hn : a.length ≤ TWO32) {i : Nat} (hi : i < TWO32)
-    (v : Bool) (h : 64 * a.length ≤ i) :
-    setBit a i (mask v) = a ∧ setBitVartime a i v = none := (setBit_vs_vartime ha hn hi v).2 h
+/-- T05.5f `set_bit_vartime` = `set_bit` for EVERY index, including `i ≥ BITS` where both leave the value
+    unchanged (the vartime form indexed out of bounds before fix d309eb6, finding C05-set-bit-vartime-oob). -/
+theorem set_bit_vartime_eq {a : List Nat} (ha : WF a) (hn : a.length ≤ TWO32) {i : Nat} (hi : i < TWO32)
+    (v : Bool) :
+    setBitVartime a i v = setBit a i (mask v) ∧ (64 * a.length ≤ i → setBitVartime a i v = a) := by
+  have e := setBitVartime_eq ha hn hi v
+  refine ⟨e, fun h => ?_⟩
+  rw [e, setBit_spec_list ha hn hi]
+  have : ¬ (i / 64 < a.length) := by omega
+  simp [this]
 
 example : ubits [0, 1, 0] = 65 ∧ trailingZeros [0, 1, 0] = 64 ∧ trailingOnes [WMAX, 1, 0] = 65 := by decide
 
@@ -390,5 +408,32 @@ theorem boxed_shl_shr_spec {a : List Nat} (ha : WF a) (hn0 : a ≠ []) (hn : 64 
   by_cases h : s < 64 * a.length
   · simp [h, Nat.not_le.mpr h]
   · simp [h, Nat.not_lt.mp h]
+
+/-! ## T05.8 crate-internal one-bit / sub-limb shifts (`pub(crate)`, reached only through hooks) -/
+
+/-- T05.8a `shl_limb(shift)`, `0 ≤ shift < 64` (with the `shift = 0` masking and `wrapping_shr`):
+    `result + 2^BITS · carry = x · 2^shift`. -/
+theorem shl_limb_spec {a : List Nat} (ha : WF a) (hne : a ≠ []) {s : Nat} (hs : s < 64) :
+    val (shlLimb a s).1 + B ^ a.length * (shlLimb a s).2 = val a * 2 ^ s ∧
+    (shlLimb a s).1.length = a.length := shlLimb_spec ha hne hs
+
+/-- T05.8b `overflowing_shl1`: `result + 2^BITS · carry = 2x`; `shr1_with_carry`: `x / 2` and the
+    choice "bit 0 was set"; the boxed `shl1_assign` / `shr1_assign` loops compute the same limbs. -/
+theorem shl1_shr1_spec {a : List Nat} (ha : WF a) :
+    (val (overflowingShl1 a).1 + B ^ a.length * (overflowingShl1 a).2 = 2 * val a ∧
+      (overflowingShl1 a).2 ≤ 1) ∧
+    (val (shr1WithCarry a).1 = val a / 2 ∧ (shr1WithCarry a).2 = mask (decide (val a % 2 = 1))) ∧
+    (a ≠ [] → boxedShl1 a = overflowingShl1 a) ∧ boxedShr1 a = ushr1 a := by
+  have h1 := overflowingShl1_spec ha
+  have h2 := shr1WithCarry_spec ha
+  exact ⟨⟨h1.1, h1.2.1⟩, ⟨h2.1, h2.2.1⟩, fun hne => boxedShl1_eq hne, boxedShr1_eq ha⟩
+
+/-- `Limb::shl` / `Limb::shr` for `s < 64` and the limb bit counts. -/
+theorem limb_shift_spec {x s : Nat} (hx : x < B) (hs : s < 64) :
+    limbShl x s = some ((x * 2 ^ s) % B) ∧ limbShr x s = some (x / 2 ^ s) ∧
+    limbBits x = bitlen x := by
+  refine ⟨by simp [limbShl, hs, wshl], by simp [limbShr, hs, wshr], ?_⟩
+  unfold limbBits wlz
+  have := bitlen_word_le hx; omega
 
 end CB.P05
